@@ -63,6 +63,10 @@ def snap(obj: Any, seen: Optional[Dict[int, int]] = None, depth: int = 0) -> Any
         return type(obj).__name__
     if isinstance(obj, type):
         return ("class", obj.__name__)
+    code = getattr(obj, "__code__", None)
+    if code is not None:
+        # a function held by a validator (a Lazy's thunk, a coercer, a whole-object check): which function it is
+        return ("function", getattr(obj, "__qualname__", "?"), code.co_filename, code.co_firstlineno)
     d: List[Tuple[str, Any]] = []
     if hasattr(obj, "__dict__"):
         for k, v in vars(obj).items():
